@@ -435,3 +435,13 @@ func UseFastTmp(prefix string) (cleanup func()) {
 		os.RemoveAll(d)
 	}
 }
+
+// Par returns the number of parallel child processes a check should use:
+// $VERIF_PAR when set, else def.
+func Par(def int) int {
+	var n int
+	if _, err := fmt.Sscan(os.Getenv("VERIF_PAR"), &n); err == nil && n > 0 {
+		return n
+	}
+	return def
+}
